@@ -28,6 +28,10 @@ generated; any groups), QUIC or not, any GREASE group:
   range only (`material_depends_on_its_range`). This is the functional form of "fresh": with independent
   random bytes per connection nothing repeats; uniqueness across connections itself is a property of the
   entropy source and is measured (`c18_fresh`).
+* `material_chunking_irrelevant` — all of it is read with `io.ReadFull`: over a reader that serves the stream
+  in arbitrary chunks (one byte per Read, short reads, empty reads) the material is the consecutive slices
+  of the concatenated stream and exactly the model's number of bytes is consumed; `single_read_witness`
+  shows what a bare `Read` would leave.
 -/
 namespace C18
 open KeyShare Negotiate
@@ -258,6 +262,28 @@ theorem material_depends_on_its_range (s1 s2 : Wire.Bytes) (off len : Nat)
     (h : ∀ i, off ≤ i → i < off + len → s1[i]? = s2[i]?) : slice s1 off len = slice s2 off len :=
   slice_congr s1 s2 off len h
 
+/-- **Chunking is irrelevant.** Every piece of material is read with `io.ReadFull`; over a reader that hands
+the stream out in arbitrary chunks (short reads, one byte per `Read`, empty reads) the logical reads of an
+application are exactly the consecutive slices of the *concatenated* stream with the model's lengths: the
+material is a function of the concatenated stream only, and exactly `Σ lengths` bytes are consumed. Two
+readers serving the same stream in different chunks therefore produce the same random, session id, GREASE
+seed and key seeds. -/
+theorem material_chunking_irrelevant (cs1 cs2 : List Wire.Bytes) (lens : List Nat) (m1 m2 : List Wire.Bytes)
+    (hsame : cs1.flatten = cs2.flatten)
+    (h1 : readAll cs1 lens = some m1) (h2 : readAll cs2 lens = some m2) :
+    m1 = slices cs1.flatten lens ∧ m1 = m2 := by
+  have e1 := readAll_slices lens cs1 m1 h1
+  have e2 := readAll_slices lens cs2 m2 h2
+  refine ⟨e1, ?_⟩
+  rw [e1, e2, hsame]
+
+/-- what goes wrong without `io.ReadFull` (replayed on the real code by the reader disciplines of
+`c18_shares`): a single `Read` of a 64-byte seed from a reader that serves one byte at a time leaves 63
+zero bytes — not the first 64 bytes of the stream. -/
+theorem single_read_witness :
+    ∃ cs : List Wire.Bytes, readOnce cs 4 ≠ cs.flatten.take 4 ∧ (readFull cs 4).map (·.1) = some (cs.flatten.take 4) :=
+  ⟨[[7], [8], [], [9], [10], [11]], by decide, by decide⟩
+
 /-! ## non-vacuity -/
 
 /-- a Chrome-131-like key-share list: GREASE (1 byte of data), X25519MLKEM768, X25519; and Firefox's. -/
@@ -276,5 +302,8 @@ example : ∃ out1 out2, applyPreset false 0x3a3a false none firefoxSpec = some 
   ⟨_, _, rfl, rfl, by decide⟩
 /-- a group the library cannot generate makes `ApplyPreset` fail (no hello at all). -/
 example : applyPreset false 0x3a3a false none [⟨30, 0⟩] = none := by decide
+/-- hypotheses of `material_chunking_irrelevant`: the same six bytes served as 1+1+0+4 and as 3+3. -/
+example : readAll [[1], [2], [], [3, 4, 5, 6]] [2, 3] = some [[1, 2], [3, 4, 5]] ∧
+    readAll [[1, 2, 3], [4, 5, 6]] [2, 3] = some [[1, 2], [3, 4, 5]] := by decide
 
 end C18
